@@ -4,7 +4,7 @@ source length, block, hop, max_read (samples) unbounded symbolic integers."""
 import z3
 
 from ..engine import explore, S
-from ..values import SymBytes, SymInt, SymRat, slice_goal, toint, tobool
+from ..values import SymBytes, SymInt, SymRat, slice_goal, toint, tobool, lift
 from .. import loader
 from . import byt, tok
 from .c10 import expected_block
@@ -167,6 +167,11 @@ def long_harness(L, R, limit):
                     conds[("block", i)] = slice_goal(out, D, i, i + 1)
             conds["every read returns a block"] = bad == 0
             r.rewind()
+            dl = lift(r.data).length()
+            # lengths first (linear arithmetic only): a recording that lost or duplicated blocks is found without sequence reasoning
+            r1 = tok.discharge(e, {"data has as many bytes as were read": dl == R}, lambda m: mk(m, {"n": n}, meta, []))
+            if r1["status"] != "ok":
+                return r1
             conds["data is what was read"] = slice_goal(r.data, D, 0, R)
             first = r.read()
             conds["replay starts over"] = first is not None and slice_goal(first, D, 0, 1)
